@@ -14,16 +14,20 @@ def nontrivial(k):
 def run(tier, seed):
     io = session.base(InitWorld="empty", Kinds=["Tattach", "Tlcreate", "Tucreate", "Tlopen", "Tread", "Twrite", "Tfsync", "Treaddir",
                                                "Tclunk", "Twalk", "Tmkdir", "Txattrcreate", "Txattrwalk"])
+    # one backend error (EIO) in a history: what the fault-free requests AFTER the failed one are answered
+    # (a fid left open or bound by a request that failed) is the session model's business too
+    flt = session.base(Kinds=["Tattach", "Twalk", "Tlopen", "Tlcreate", "Tread", "Twrite", "Tfsync", "Tclunk", "Tremove", "Txattrwalk"],
+                       FaultKinds=["EIO"], MaxFaults=1, MaxDepth=3)
     if tier == "quick":
         mc = [("full-d4", session.base(BadNames=[".."], AttachNames=["", "a/b"], MaxDepth=4)), ("io-d4", dict(io, MaxDepth=4))]
         gen = [("full-d3", session.base(BadNames=[".."], AttachNames=["", "a/b"], MaxDepth=3), "bfs"),
-               ("io-d3", dict(io, MaxDepth=3), "bfs")]
+               ("io-d3", dict(io, MaxDepth=3), "bfs"), ("fault-d3", flt, "bfs")]
     else:
         mc = [("full-d4", session.base(BadNames=[".."], AttachNames=["", "a/b"], MaxDepth=4)), ("io-d5", dict(io, MaxDepth=5)),
               ("mix-d4", session.base(Names=["a", "b", "s", "k"], InitWorld="mix", MaxDepth=4,
                                       Kinds=[k for k in session.ALL_KINDS if not k.startswith("Tu")]))]
         gen = [("full-d4", session.base(BadNames=[".."], AttachNames=["", "a/b"], MaxDepth=4), "bfs"),
-               ("io-d4", dict(io, MaxDepth=4), "bfs")]
+               ("io-d4", dict(io, MaxDepth=4), "bfs"), ("fault-d4", dict(flt, MaxDepth=4), "bfs")]
     return session.run("C04", tier, seed, mc, gen, RULE, nontrivial)
 
 
